@@ -501,12 +501,20 @@ def hierarchies(n, reuse_names=False):
         if len(fields) == n:
             yield [dict(f) for f in fields]
             return
-        name = NAMES[len(fields)]
+        name = NAMES[len(set(f["name"] for f in fields))]
         for s in scopes_for(fields):
             if not all(any(g["name"] == k and compatible(g["scope"], s)
                            for g in fields) for k in s):
                 continue
             yield from rec(fields + [dict(name=name, scope=s)])
+            if reuse_names:
+                # the same identifier again in a mutually exclusive scope
+                for old in sorted(set(f["name"] for f in fields)):
+                    if old in s:
+                        continue
+                    if all(not compatible(g["scope"], s) for g in fields
+                           if g["name"] == old):
+                        yield from rec(fields + [dict(name=old, scope=s)])
     yield from rec([])
 
 
@@ -550,7 +558,7 @@ def fam_layout(params, tier, acc):
     if n >= 5:
         lens = ["1", "2", "auto3"]
     i = -1
-    for h in hierarchies(n):
+    for h in hierarchies(n, reuse_names=True):
         i += 1
         if i % K != k:
             continue
